@@ -90,6 +90,12 @@ TARGETS["solpaths"] = dict(file="flowpaths/abstractpathmodeldag.py", cls="Abstra
                                         # a call whose result is an input of the model: the rounded 0/1 values the solver wrapper returns
                                         calls={"self.solver.get_values(self.edge_vars, binary_values=True)": ("solver_edge_values", _EV)}))
 
+# a query of stDiGraph on data networkx computed (condensation): the expressions below are inputs of the model
+TARGETS["is_scc_edge"] = dict(file="flowpaths/stdigraph.py", cls="stDiGraph", func="is_scc_edge", params=[SELFOBJ, NODE, NODE], defaults=[], ret=BOOL,
+                              selfobj=dict(inputs=[], outputs=[],
+                                           calls={"self.edges()": ("edges", Set(EDGE)),
+                                                  "self._condensation.graph['mapping']": ("scc_of", Dict(NODE, NODE))}))
+
 # name_prefix=f"<prefix>{name}" of self.add_variables -> variable family of Lin.v (the table the E1 harness uses as well)
 PREFIX_FAMILY = {"binary_": "fBit", "comp_": "fComp", "z_": "fZ"}
 
@@ -389,6 +395,10 @@ class Fn:
     # -------------------------------------------------------------------------------- expressions
     # expr returns (term, type, guards); guards = [(bool term that is true when the operation fails, exception)]
     def expr(self, e, env):
+        if self.s_calls and isinstance(e, (ast.Call, ast.Subscript, ast.Attribute)) and self.sparam not in env["bound"] \
+                and ast.unparse(e) in self.s_calls:
+            nm, ty = self.s_calls[ast.unparse(e)]          # a declared input expression of the object
+            return "in_" + nm, ty, []
         m = getattr(self, "e_" + type(e).__name__, None)
         if m is None:
             raise Unsupported("expression node %s" % type(e).__name__, e)
@@ -701,9 +711,6 @@ class Fn:
 
     def e_Call(self, e, env):
         f = e.func
-        if self.s_calls and ast.unparse(e) in self.s_calls and self.sparam not in env["bound"]:
-            nm, ty = self.s_calls[ast.unparse(e)]
-            return "in_" + nm, ty, []
         if isinstance(f, ast.Name):
             n = f.id
             if n in self.locals or n in self.params or n in self.loopvars:
